@@ -1,1 +1,8 @@
 import XPathV.Theorems.C08
+#print axioms XPathV.Theorems.C08.numeric_ops_ok
+#print axioms XPathV.Theorems.C08.asNumber_spec
+#print axioms XPathV.Theorems.C08.arith_operands_spec
+#print axioms XPathV.Theorems.C08.arith_literals_spec
+#print axioms XPathV.Theorems.C08.literal_is_lexeme
+#print axioms XPathV.Theorems.C08.number_to_string_spec
+#print axioms XPathV.Theorems.C08.count_spec
